@@ -247,8 +247,11 @@ class AbsInt(_Abstract):
     def __floordiv__(self, o: Any) -> "AbsInt":
         return self._bin("//", o)
 
-    def _cmp(self, op: str, o: Any) -> AbsBool:
-        return AbsBool((op, self.expr, o.expr if isinstance(o, AbsInt) else o))
+    def _cmp(self, op: str, o: Any) -> Any:
+        oe = o.expr if isinstance(o, AbsInt) else o
+        if oe == self.expr and isinstance(o, AbsInt):
+            return op in ("==", "<=", ">=")  # the same abstract quantity on both sides
+        return AbsBool((op, self.expr, oe))
 
     def __eq__(self, o: Any) -> Any:  # type: ignore
         return self._cmp("==", o)
